@@ -82,7 +82,7 @@ def run_property(pid, spec_name, tier, log, open_findings, replay_dir):
                            "replay": f"./check {pid} --replay {path}"}, fh, indent=1)
             fid = None
             for f in open_findings.values():
-                if f.get("obligation") == f"{pid}/{r.id}":
+                if f.get("obligation") == f"{pid}/{r.id}" or f"{pid}/{r.id}" in f.get("obligations", []):
                     anchor = f.get("anchor_contains", "")
                     blob = json.dumps(r.witness)
                     if not anchor or anchor in blob:
